@@ -4,6 +4,7 @@ import (
 	"bytes"
 	"fmt"
 	"math/big"
+	"strings"
 )
 
 // Judge is the oracle: given one executed call it returns every clause the call broke, tagged
@@ -1201,7 +1202,17 @@ func (m *model) saveKeyValue() {
 	}
 	for i := 0; i < len(c.Args); i += 2 {
 		if len(c.Args[i]) >= len(ProtectedPrefix) && string(c.Args[i][:len(ProtectedPrefix)]) == ProtectedPrefix {
-			m.mustFail(P("C05"), "key %q begins with the protected prefix", c.Args[i])
+			props := P("C05", "C15")
+			k := string(c.Args[i])
+			switch {
+			case strings.HasPrefix(k, RolePrefix):
+				props = append(props, "C03") // a role list written by somebody who is not the system contract
+			case strings.HasPrefix(k, NoncePrefix):
+				props = append(props, "C07")
+			case strings.HasPrefix(k, TokenPrefix):
+				props = append(props, "C02")
+			}
+			m.mustFail(props, "key %q begins with the protected prefix", c.Args[i])
 			return
 		}
 	}
